@@ -10,6 +10,7 @@
 //verif:shard VerifC18abCertManager 4
 //verif:obligation C18.a certManager.init for every start instant (1970+1 month .. 2200) and every 16-bit key prefix (hence every bucket offset): the served certificate has been valid for at least the clock-skew allowance, stays valid for at least that long, and its validity is exactly 14 days; the bucket start is a deterministic function of (instant, offset)
 //verif:obligation C18.b rollConfig driven by a punctual timer, 0..3 rollovers: at every instant of a certificate's serving interval [activation, End - skew] it has been valid >= skew and stays valid >= skew; the timer is armed for exactly End - skew; the advertised hashes always contain the previously served, the served and the next certificate (so an address learned in one period keeps verifying through the following one) and the address component lists exactly served + next; a restart at any instant of a serving interval recomputes the same certificate start
+//verif:obligation C18.d the real background() rollover goroutine driven by benbjohnson's mock clock through 2 (thorough 3) rollovers from every start instant and key prefix: at an arbitrary instant up to an hour before End - skew the served certificate has not changed, at End - skew it is the next one, and at both instants the served certificate has been valid for the clock-skew allowance (the re-armed timer is neither early nor late)
 //verif:obligation C18.c verifyRawCerts accepts a leaf only if its SHA-256 equals a SHA2-256 hash of the dialed address, it is not an RSA certificate, its lifetime is at most 14 days and it is currently valid
 //verif:bound instants anywhere in [2.6e6 s, 7.2e9 s] at nanosecond resolution, all 65536 key prefixes, <= 3 rollovers, <= 2 certificate hashes in the dialed address
 //verif:stub newCertConfig (HKDF/ECDSA/x509 generation) replaced by a stub that builds a real certConfig with the requested NotBefore/NotAfter and a fresh distinct hash; addrComponentForCert replaced by an injective stub; multihash.Encode modelled as 0x12 0x20 || digest (its real output); sha256.Sum256 / x509.ParseCertificate / time.Now substituted at their call sites by harness stubs; clock = harness stub; a late timer is an environment fault the statement does not cover (punctual timer)
@@ -17,6 +18,7 @@
 package libp2pwebtransport
 
 import (
+	"context"
 	"crypto/tls"
 	"crypto/x509"
 	"errors"
@@ -198,4 +200,51 @@ func VerifC18cVerifyRawCerts() {
 	} else {
 		vCover("rejected")
 	}
+}
+
+// ---- C18.d: the real background rollover loop against a mock clock ----
+
+func VerifC18dBackgroundLoop() {
+	VerifHook_newCertConfig = vC18newCertConfig
+	VerifHook_addrComponentForCert = vC18addrComponent
+	defer func() { VerifHook_newCertConfig, VerifHook_addrComponentForCert = nil, nil }()
+	vC18made = 0
+	key := vC18key{pub: vC18pub{raw: []byte{vUint8(), vUint8(), 0, 0}}}
+	t0 := vRange64(2_600_000_000_000_000, 7_200_000_000_000_000_000)
+	mock := clock.NewMock()
+	mock.Set(time.Unix(0, t0))
+	m := &certManager{clock: mock}
+	m.ctx, m.ctxCancel = context.WithCancel(context.Background())
+	vAssert(m.init(key) == nil, "init succeeds")
+	m.background(key)
+	settle := func() {
+		for i := 0; i < 12; i++ {
+			vYield()
+		}
+	}
+	settle()
+	rolls := 2 + vTier()
+	for k := 0; k < rolls; k++ {
+		m.mx.RLock()
+		cur, next := m.currentConfig, m.nextConfig
+		m.mx.RUnlock()
+		retire := cur.End().Add(-clockSkewAllowance)
+		// an instant strictly before the retirement instant: the served certificate must not change yet
+		early := time.Duration(vRange64(1, int64(time.Hour)))
+		mock.Set(retire.Add(-early))
+		settle()
+		m.mx.RLock()
+		vAssert(m.currentConfig == cur, "the served certificate is not replaced before End - skew (the next one would not yet have been valid for the clock-skew allowance)")
+		vAssert(m.currentConfig.Start().UnixNano()+vC18skew <= mock.Now().UnixNano(), "the served certificate has been valid for at least the clock-skew allowance")
+		m.mx.RUnlock()
+		mock.Set(retire)
+		settle()
+		m.mx.RLock()
+		vAssert(m.currentConfig == next, "at End - skew the loop switches to the next certificate")
+		vAssert(m.currentConfig.Start().UnixNano()+vC18skew <= mock.Now().UnixNano() && mock.Now().UnixNano()+vC18skew <= m.currentConfig.End().UnixNano(), "the newly served certificate has been valid, and stays valid, for the clock-skew allowance")
+		m.mx.RUnlock()
+		vCover("rolled-by-the-loop")
+	}
+	m.ctxCancel()
+	settle()
 }
